@@ -87,6 +87,7 @@ type GhostDef struct {
 
 type PatGuard struct {
 	Pattern *regexp.Regexp
+	Ordinal int // 0 = every call site; n = the n-th call site (source order) of a matching callee
 	Cond    Clause
 }
 
@@ -426,6 +427,11 @@ func (cs *ContractSet) LoadFile(path, defaultPkg string) {
 					fail(fmt.Errorf("%s: bad %s clause", src, word))
 					continue
 				}
+				ord := 0
+				if mo := regexp.MustCompile(`^(.*)#(\d+)$`).FindStringSubmatch(m[1]); mo != nil {
+					m[1] = mo[1]
+					fmt.Sscanf(mo[2], "%d", &ord)
+				}
 				rx, err := regexp.Compile("^(" + m[1] + ")$")
 				if err != nil {
 					fail(fmt.Errorf("%s: %v", src, err))
@@ -441,9 +447,9 @@ func (cs *ContractSet) LoadFile(path, defaultPkg string) {
 					c.Label = word
 				}
 				if word == "guard-call" {
-					cur.CallGuards = append(cur.CallGuards, PatGuard{rx, c})
+					cur.CallGuards = append(cur.CallGuards, PatGuard{rx, ord, c})
 				} else {
-					cur.StoreGuards = append(cur.StoreGuards, PatGuard{rx, c})
+					cur.StoreGuards = append(cur.StoreGuards, PatGuard{rx, 0, c})
 				}
 			case "guard":
 				c, err := parseClause(rest, src)
